@@ -10,8 +10,9 @@ ID = 'C16'
 ENGINE = 'E1 full product'
 RULE = ("vrl x object-name length x payload length (0..40 and k*cap+{-2..2}) x kind {bytes, bytearray, str} x tail "
         "{plain, 01, 00, ff}, single payloads; plus all ordered sequences of 2..3 payloads from a 6-length window over "
-        "1..2 NO-FORMAT objects in every interleaving; a third of the cases is written twice with the same objects and "
-        "the second file is checked; non-trivial = file written and type-1 IFLRs compared")
+        "1..2 NO-FORMAT objects in every interleaving; a third of the cases is written twice with the same objects, another third "
+        "twice with the payloads changed in between (bytearrays in place, others through the record's data attribute), "
+        "and the second file is checked; non-trivial = file written and type-1 IFLRs compared")
 ASSUMPTIONS = ["strict reader mc/rp66.py", "reference model mc/model.py"]
 
 
@@ -71,12 +72,14 @@ def make_spec(case):
     for i, n in enumerate(case['names']):
         sp['ops'].append(S.op_add('no_format', f'N{i}', n))
     for i, (o, n, kind, tail) in enumerate(case['seq']):
-        sp['ops'].append({'op': 'nfdata', 'lf': 'L0', 'nf': f'N{o}', 'data': enc(kind, payload(n, tail, i))})
+        sp['ops'].append({'op': 'nfdata', 'lf': 'L0', 'nf': f'N{o}', 'h': f'R{i}', 'data': enc(kind, payload(n, tail, i))})
     return sp
 
 
-def _write_twice(sp):
-    """Write the same objects twice; returns the result of the SECOND write (run_spec-like)."""
+def _write_twice(sp, change=False):
+    """Write the same objects twice; returns the result of the SECOND write (run_spec-like). With ``change`` the
+    payloads are changed between the writes: bytearrays are modified in place (the caller's own buffer), the others
+    are replaced through the record's ``data`` attribute; sp['ops'] is updated to what the second file must hold."""
     import os
     from mc.engine import scratch_dir
     b = S.build(sp)
@@ -86,6 +89,26 @@ def _write_twice(sp):
     path = os.path.join(scratch_dir(), 'c16-twice.dlis')
     try:
         b.df.write(path, **S.write_kwargs(sp, b))
+        if change:
+            for op in sp['ops']:
+                if op['op'] != 'nfdata':
+                    continue
+                rec = b.objs[op['h']]
+                d = op['data']
+                if isinstance(d, dict) and '$bytearray' in d:
+                    new = bytes(reversed(bytes.fromhex(d['$bytearray']))) if len(d['$bytearray']) > 2 else b'\xa5'
+                    if len(new) == len(rec.data):
+                        rec.data[:] = new               # in place: same buffer object
+                    else:
+                        rec.data = bytearray(new)
+                    op['data'] = {'$bytearray': new.hex()}
+                elif isinstance(d, dict):
+                    new = bytes.fromhex(d['$bytes'])[::-1] + b'\x5a'
+                    rec.data = new
+                    op['data'] = {'$bytes': new.hex()}
+                else:
+                    rec.data = d.upper() + '!'
+                    op['data'] = d.upper() + '!'
         b.df.write(path, **S.write_kwargs(sp, b))
         res['write'] = 'ok'
         res['data'] = open(path, 'rb').read()
@@ -97,8 +120,9 @@ def _write_twice(sp):
 def run_case(case):
     sp = make_spec(case)
     # every third case of a shard is written twice with the same objects; the second file is the one that is checked
-    twice = (sum(n for _, n, _, _ in case['seq']) + len(case['seq'])) % 3 == 0
-    res = _write_twice(sp) if twice else S.run_spec(sp)
+    k = (sum(n for _, n, _, _ in case['seq']) + len(case['seq'])) % 3
+    twice = k != 1
+    res = _write_twice(sp, change=(k == 2)) if twice else S.run_spec(sp)
     if res['failed_at'] is not None:
         return Outcome('build-raised', [("C16:build-raised", f"{res['status'][-1]} | {case}")], False)
     if res['write'] != 'ok':
@@ -116,7 +140,8 @@ def run_case(case):
             viol.append((sig, f"{d} | {case}"))
     except R.FormatError as e:
         viol.append((f"C16:unparsable:{e.code}", f"{e} | {case}"))
-    return Outcome('ok:%d%s' % (len(case['seq']), ':second-write' if twice else ''), viol, True, digest=sha(res['data']))
+    return Outcome('ok:%d%s' % (len(case['seq']), (':second-write', '', ':second-write-changed-payloads')[k] if twice else ''),
+                   viol, True, digest=sha(res['data']))
 
 
 def _classify(m, lf):
